@@ -45,6 +45,7 @@ KidAt(kind, j) ==
     [] kind = "trivial" -> ChExpr(Ident("ci" \o N(j), FALSE, PVNode("pv" \o N(j))))
     [] kind = "text"    -> ChText(<<"a">>)
     [] kind = "spread"  -> ChSpread(Call("gs" \o N(j), Arr(<<Num(j)>>)))
+    [] kind = "spreadarr" -> ChSpread(ArrLit(<<Call("gsa" \o N(j), Num(j)), Member("oc", "y" \o N(j), Num(40 + j))>>))
     [] kind = "elem"    -> ChElem(Inner("e" \o N(j)))
     [] kind = "comp"    -> ChElem(InnerComp("k" \o N(j)))
     [] kind = "direlem" -> ChElem(Elem(TagHtml("span"), <<Dir("kebab", <<"show">>, "", <<>>, AvExpr(Call("dsv" \o N(j), Bool(TRUE))))>>,
